@@ -212,6 +212,7 @@ func (acc *Accumulator) Remove(sk *gabikeys.PrivateKey, e *big.Int, parent *Even
 		ParentHash: parent.hash(),
 	}
 	newAcc.EventHash = event.hash()
+	verifTraceRemove(acc, newAcc, e)
 	return newAcc, event, nil
 }
 
